@@ -275,6 +275,28 @@ def check_index_use(P, R):
     R.floor(rule, "uses of leap-table indices", n, 10)
 
 
+def _helper_bounds(tu, call, it):
+    """the flag comes from a small predicate `f(.., i, ..)` that returns `i + 1 < nleaps && ...`, called with the index that is
+    read at `it` (= index + 1)"""
+    f2 = tu.func(call.get("callee"))
+    if f2 is None or getattr(f2, "body", None) is None:
+        return False
+    rets = [r for r in f2.walk() if r.get("k") == "ReturnStmt" and kids(r)]
+    if len(rets) != 1:
+        return False
+    e = strip(kids(rets[0])[0])
+    if e is None or e.get("k") != "BinaryOperator" or e.get("op") != "&&":
+        return False
+    nc = norm_cond(strip(e["c"][0]), True)
+    if nc[0] != "<" or nc[2] != "nleaps":
+        return False
+    args = call_args(call)
+    for i, p_ in enumerate(f2.params):
+        if i < len(args) and nc[1].replace("(", "").replace(")", "").replace(" ", "") == (p_["n"] + "+1"):
+            return (expr_text(strip(args[i])) + "+1").replace(" ", "") == it.replace("(", "").replace(")", "").replace(" ", "")
+    return False
+
+
 def check_next_guard(P, R):
     rule = "RF11-next"
     tu = P.tu("dt-core.c")
@@ -283,6 +305,30 @@ def check_next_guard(P, R):
         raise AnalysisBroken("leaps_before vanished")
     R.saw(fn)
     n = 0
+    # predicates cut out of leaps_before (called from it, handed one of the tables): their reads count as its own
+    helpers = []
+    for c in fn.walk():
+        if c.get("k") == "CallExpr" and c.get("callee") and any(
+                (strip(a) or {}).get("k") == "DeclRefExpr" and str((strip(a) or {}).get("n", "")).startswith("leaps_") for a in call_args(c)):
+            h = tu.func(c["callee"])
+            if h is not None and getattr(h, "body", None) is not None and h not in helpers and len(list(h.walk())) < 80:
+                helpers.append(h)
+    for h in helpers:
+        for x in h.walk():
+            if x.get("k") != "ArraySubscriptExpr":
+                continue
+            base, idx = strip(x["c"][0]), strip(x["c"][1])
+            if base is None or base.get("k") != "DeclRefExpr" or base.get("dk") != "parm":
+                continue
+            if idx is None or idx.get("k") != "BinaryOperator" or idx.get("op") != "+":
+                continue
+            n += 1
+            it = expr_text(idx)
+            gs = [norm_cond(g["cond"], g["pol"]) for g in guards_of(h, x) if "pol" in g]
+            if any(op == "<" and a == it and b == "nleaps" for op, a, b in gs):
+                R.ob(rule, "%s: %s[%s] under %s < nleaps" % (h.name, base["n"], it, it), True)
+            else:
+                R.finding(rule, h, "%s[%s]" % (base["n"], it), "table read at index+1 without the bound test `%s < nleaps`" % it, x)
     defs = local_defs(fn)
     for x in fn.walk():
         if x.get("k") != "ArraySubscriptExpr":
@@ -313,13 +359,15 @@ def check_next_guard(P, R):
                                     l = strip(rs["c"][0])
                                     if l is not None and norm_cond(l, True)[0] == "<" and norm_cond(l, True)[2] == "nleaps":
                                         continue
+                                if rs is not None and rs.get("k") == "CallExpr" and _helper_bounds(tu, rs, it):
+                                    continue
                                 alld = False
                             ok = ok or alld
         if ok:
             R.ob(rule, "%s[%s] under %s < nleaps" % (base["n"], it, it), True)
         else:
             R.finding(rule, fn, "%s[%s]" % (base["n"], it), "table read at index+1 without the bound test `%s < nleaps`" % it, x)
-    R.floor(rule, "index+1 reads", n, 5)
+    R.floor(rule, "index+1 reads", n, 3)
 
 
 def check_return_bound(fn, R):
